@@ -20,13 +20,17 @@
 (*   "per_run": a cell owned by that execution (the code: a list local to  *)
 (*   _run_in_thread); "shared_field": one sandbox field reset at the start *)
 (*   of every threaded execution.                                          *)
+(* Kind = importer: the non-terminating code sits in a second student file  *)
+(*   reached through import.  ImportThread = "inline": it runs in T itself *)
+(*   (the code); "nested": the import is given a helper thread O of its    *)
+(*   own which T joins -- stopping T leaves O running for ever.            *)
 (* NextRun = "plain": the later execution is unthreaded; "threaded": it is *)
 (*   threaded too, and (Kind = blocked) its program releases the lock the  *)
 (*   abandoned thread is blocked on, so that thread dies DURING it.        *)
 (***************************************************************************)
 EXTENDS Naturals, Sequences, TLC, Json
 
-CONSTANTS Design, Kind, MaxSteps, Inject, Handback, NextRun
+CONSTANTS Design, Kind, MaxSteps, Inject, Handback, NextRun, ImportThread
 
 (* --algorithm race
 variables
@@ -43,12 +47,14 @@ variables
   xcell = [r \in {"r1", "r2"} |-> "none"],   \* exception handed back by the student thread of each execution
   released = FALSE,    \* the lock a blocked student thread waits for has been released
   nOutcome = "none", excNext = "unset",
+  orphanRuns = FALSE,  \* the import's own helper thread is running (ImportThread = "nested")
   mDone = FALSE, crashed = {}, excAtReturn = "unset", timedOut = FALSE,
   sched = <<>>;        \* sequence of hook-level points passed, for schedule forcing
 
 define
   Quiet == mDone /\ tState \in {"dead", "blocked", "immortal"}
   Swallows == Kind = "swallower" \/ (Kind = "catcher" /\ Inject = "exception")
+  Nested == Kind = "importer" /\ ImportThread = "nested"
   MySlot == IF Handback = "shared_field" THEN cur ELSE "r1"     \* T is the student thread of execution r1
 end define;
 
@@ -79,7 +85,8 @@ t_loop:   while TRUE do
                else await pending end if;
             else
                steps := steps + 1;
-               if Kind \in {"printer", "swallower", "finisher", "catcher"} then write("s"); hook("T:step") end if;
+               if Nested then orphanRuns := TRUE       \* T only waits for O from here on
+               elsif Kind \in {"printer", "swallower", "finisher", "catcher", "importer"} then write("s"); hook("T:step") end if;
             end if;
           end while;
 t_blocked: tState := "blocked";
@@ -111,6 +118,16 @@ te_popOut: if pending then goto t_dead
           elsif stdouts = <<>> then crashed := crashed \cup {"T:IndexError"}; goto t_dead
           else raw := Append(raw, <<Head(stdouts), buf[Head(stdouts)]>>); stdouts := Tail(stdouts) end if;
 t_dead:   tState := "dead";
+end process;
+
+\* ---------------- the helper thread of a nested import: nobody ever terminates it
+process O = "O"
+variables osteps = 0;
+begin
+o_wait:   await orphanRuns;
+o_loop:   while osteps < MaxSteps + 2 do
+            write("s"); osteps := osteps + 1;
+          end while;
 end process;
 
 \* ---------------- grader thread
@@ -168,21 +185,22 @@ end process;
 end algorithm; *)
 \* BEGIN TRANSLATION
 VARIABLES pc, patches, stdouts, pOut, buf, realOut, raw, exc, fbs, pending, 
-          tState, cur, xcell, released, nOutcome, excNext, mDone, crashed, 
-          excAtReturn, timedOut, sched
+          tState, cur, xcell, released, nOutcome, excNext, orphanRuns, mDone, 
+          crashed, excAtReturn, timedOut, sched
 
 (* define statement *)
 Quiet == mDone /\ tState \in {"dead", "blocked", "immortal"}
 Swallows == Kind = "swallower" \/ (Kind = "catcher" /\ Inject = "exception")
+Nested == Kind = "importer" /\ ImportThread = "nested"
 MySlot == IF Handback = "shared_field" THEN cur ELSE "r1"
 
-VARIABLES steps, tmp, mtmp
+VARIABLES steps, tmp, osteps, mtmp
 
 vars == << pc, patches, stdouts, pOut, buf, realOut, raw, exc, fbs, pending, 
-           tState, cur, xcell, released, nOutcome, excNext, mDone, crashed, 
-           excAtReturn, timedOut, sched, steps, tmp, mtmp >>
+           tState, cur, xcell, released, nOutcome, excNext, orphanRuns, mDone, 
+           crashed, excAtReturn, timedOut, sched, steps, tmp, osteps, mtmp >>
 
-ProcSet == {"T"} \cup {"M"}
+ProcSet == {"T"} \cup {"O"} \cup {"M"}
 
 Init == (* Global variables *)
         /\ patches = <<>>
@@ -200,6 +218,7 @@ Init == (* Global variables *)
         /\ released = FALSE
         /\ nOutcome = "none"
         /\ excNext = "unset"
+        /\ orphanRuns = FALSE
         /\ mDone = FALSE
         /\ crashed = {}
         /\ excAtReturn = "unset"
@@ -208,9 +227,12 @@ Init == (* Global variables *)
         (* Process T *)
         /\ steps = 0
         /\ tmp = "none"
+        (* Process O *)
+        /\ osteps = 0
         (* Process M *)
         /\ mtmp = "none"
         /\ pc = [self \in ProcSet |-> CASE self = "T" -> "t_wait"
+                                        [] self = "O" -> "o_wait"
                                         [] self = "M" -> "m_begin"]
 
 t_wait == /\ pc["T"] = "t_wait"
@@ -218,8 +240,8 @@ t_wait == /\ pc["T"] = "t_wait"
           /\ pc' = [pc EXCEPT !["T"] = "t_begin"]
           /\ UNCHANGED << patches, stdouts, pOut, buf, realOut, raw, exc, fbs, 
                           pending, tState, cur, xcell, released, nOutcome, 
-                          excNext, mDone, crashed, excAtReturn, timedOut, 
-                          sched, steps, tmp, mtmp >>
+                          excNext, orphanRuns, mDone, crashed, excAtReturn, 
+                          timedOut, sched, steps, tmp, osteps, mtmp >>
 
 t_begin == /\ pc["T"] = "t_begin"
            /\ IF Design = "student_bookkeeping"
@@ -229,16 +251,16 @@ t_begin == /\ pc["T"] = "t_begin"
                       /\ exc' = exc
            /\ UNCHANGED << patches, stdouts, pOut, buf, realOut, raw, fbs, 
                            pending, tState, cur, xcell, released, nOutcome, 
-                           excNext, mDone, crashed, excAtReturn, timedOut, 
-                           sched, steps, tmp, mtmp >>
+                           excNext, orphanRuns, mDone, crashed, excAtReturn, 
+                           timedOut, sched, steps, tmp, osteps, mtmp >>
 
 t_mock1 == /\ pc["T"] = "t_mock1"
            /\ stdouts' = <<"b1">> \o stdouts
            /\ pc' = [pc EXCEPT !["T"] = "t_mock2"]
            /\ UNCHANGED << patches, pOut, buf, realOut, raw, exc, fbs, pending, 
                            tState, cur, xcell, released, nOutcome, excNext, 
-                           mDone, crashed, excAtReturn, timedOut, sched, steps, 
-                           tmp, mtmp >>
+                           orphanRuns, mDone, crashed, excAtReturn, timedOut, 
+                           sched, steps, tmp, osteps, mtmp >>
 
 t_mock2 == /\ pc["T"] = "t_mock2"
            /\ patches' = <<pOut>> \o patches
@@ -246,21 +268,25 @@ t_mock2 == /\ pc["T"] = "t_mock2"
            /\ tState' = "running"
            /\ pc' = [pc EXCEPT !["T"] = "t_loop"]
            /\ UNCHANGED << stdouts, buf, realOut, raw, exc, fbs, pending, cur, 
-                           xcell, released, nOutcome, excNext, mDone, crashed, 
-                           excAtReturn, timedOut, sched, steps, tmp, mtmp >>
+                           xcell, released, nOutcome, excNext, orphanRuns, 
+                           mDone, crashed, excAtReturn, timedOut, sched, steps, 
+                           tmp, osteps, mtmp >>
 
 t_loop == /\ pc["T"] = "t_loop"
           /\ IF Kind = "blocked"
                 THEN /\ pc' = [pc EXCEPT !["T"] = "t_blocked"]
-                     /\ UNCHANGED << buf, realOut, pending, sched, steps >>
+                     /\ UNCHANGED << buf, realOut, pending, orphanRuns, sched, 
+                                     steps >>
                 ELSE /\ IF pending /\ ~Swallows
                            THEN /\ pending' = FALSE
                                 /\ pc' = [pc EXCEPT !["T"] = "t_exit"]
-                                /\ UNCHANGED << buf, realOut, sched, steps >>
+                                /\ UNCHANGED << buf, realOut, orphanRuns, 
+                                                sched, steps >>
                            ELSE /\ IF pending /\ Swallows
                                       THEN /\ pending' = FALSE
                                            /\ pc' = [pc EXCEPT !["T"] = "t_loop"]
-                                           /\ UNCHANGED << buf, realOut, sched, 
+                                           /\ UNCHANGED << buf, realOut, 
+                                                           orphanRuns, sched, 
                                                            steps >>
                                       ELSE /\ IF steps >= MaxSteps
                                                  THEN /\ IF Kind = "finisher"
@@ -271,33 +297,40 @@ t_loop == /\ pc["T"] = "t_loop"
                                                                             /\ pc' = [pc EXCEPT !["T"] = "t_loop"]
                                                       /\ UNCHANGED << buf, 
                                                                       realOut, 
+                                                                      orphanRuns, 
                                                                       sched, 
                                                                       steps >>
                                                  ELSE /\ steps' = steps + 1
-                                                      /\ IF Kind \in {"printer", "swallower", "finisher", "catcher"}
-                                                            THEN /\ IF pOut = "real"
-                                                                       THEN /\ realOut' = Append(realOut, "s")
-                                                                            /\ buf' = buf
-                                                                       ELSE /\ buf' = [buf EXCEPT ![pOut] = Append(buf[pOut], "s")]
-                                                                            /\ UNCHANGED realOut
-                                                                 /\ sched' = Append(sched, "T:step")
-                                                            ELSE /\ TRUE
+                                                      /\ IF Nested
+                                                            THEN /\ orphanRuns' = TRUE
                                                                  /\ UNCHANGED << buf, 
                                                                                  realOut, 
                                                                                  sched >>
+                                                            ELSE /\ IF Kind \in {"printer", "swallower", "finisher", "catcher", "importer"}
+                                                                       THEN /\ IF pOut = "real"
+                                                                                  THEN /\ realOut' = Append(realOut, "s")
+                                                                                       /\ buf' = buf
+                                                                                  ELSE /\ buf' = [buf EXCEPT ![pOut] = Append(buf[pOut], "s")]
+                                                                                       /\ UNCHANGED realOut
+                                                                            /\ sched' = Append(sched, "T:step")
+                                                                       ELSE /\ TRUE
+                                                                            /\ UNCHANGED << buf, 
+                                                                                            realOut, 
+                                                                                            sched >>
+                                                                 /\ UNCHANGED orphanRuns
                                                       /\ pc' = [pc EXCEPT !["T"] = "t_loop"]
                                            /\ UNCHANGED pending
           /\ UNCHANGED << patches, stdouts, pOut, raw, exc, fbs, tState, cur, 
                           xcell, released, nOutcome, excNext, mDone, crashed, 
-                          excAtReturn, timedOut, tmp, mtmp >>
+                          excAtReturn, timedOut, tmp, osteps, mtmp >>
 
 t_blocked == /\ pc["T"] = "t_blocked"
              /\ tState' = "blocked"
              /\ pc' = [pc EXCEPT !["T"] = "t_b2"]
              /\ UNCHANGED << patches, stdouts, pOut, buf, realOut, raw, exc, 
                              fbs, pending, cur, xcell, released, nOutcome, 
-                             excNext, mDone, crashed, excAtReturn, timedOut, 
-                             sched, steps, tmp, mtmp >>
+                             excNext, orphanRuns, mDone, crashed, excAtReturn, 
+                             timedOut, sched, steps, tmp, osteps, mtmp >>
 
 t_b2 == /\ pc["T"] = "t_b2"
         /\ released /\ pending
@@ -305,25 +338,25 @@ t_b2 == /\ pc["T"] = "t_b2"
         /\ tState' = "running"
         /\ pc' = [pc EXCEPT !["T"] = "t_exit"]
         /\ UNCHANGED << patches, stdouts, pOut, buf, realOut, raw, exc, fbs, 
-                        cur, xcell, released, nOutcome, excNext, mDone, 
-                        crashed, excAtReturn, timedOut, sched, steps, tmp, 
-                        mtmp >>
+                        cur, xcell, released, nOutcome, excNext, orphanRuns, 
+                        mDone, crashed, excAtReturn, timedOut, sched, steps, 
+                        tmp, osteps, mtmp >>
 
 t_immortal == /\ pc["T"] = "t_immortal"
               /\ tState' = "immortal"
               /\ pc' = [pc EXCEPT !["T"] = "t_i2"]
               /\ UNCHANGED << patches, stdouts, pOut, buf, realOut, raw, exc, 
                               fbs, pending, cur, xcell, released, nOutcome, 
-                              excNext, mDone, crashed, excAtReturn, timedOut, 
-                              sched, steps, tmp, mtmp >>
+                              excNext, orphanRuns, mDone, crashed, excAtReturn, 
+                              timedOut, sched, steps, tmp, osteps, mtmp >>
 
 t_i2 == /\ pc["T"] = "t_i2"
         /\ FALSE
         /\ pc' = [pc EXCEPT !["T"] = "t_exit"]
         /\ UNCHANGED << patches, stdouts, pOut, buf, realOut, raw, exc, fbs, 
                         pending, tState, cur, xcell, released, nOutcome, 
-                        excNext, mDone, crashed, excAtReturn, timedOut, sched, 
-                        steps, tmp, mtmp >>
+                        excNext, orphanRuns, mDone, crashed, excAtReturn, 
+                        timedOut, sched, steps, tmp, osteps, mtmp >>
 
 t_exit == /\ pc["T"] = "t_exit"
           /\ sched' = Append(sched, "T:exit")
@@ -334,8 +367,8 @@ t_exit == /\ pc["T"] = "t_exit"
                      /\ xcell' = xcell
           /\ UNCHANGED << patches, stdouts, pOut, buf, realOut, raw, exc, fbs, 
                           pending, tState, cur, released, nOutcome, excNext, 
-                          mDone, crashed, excAtReturn, timedOut, steps, tmp, 
-                          mtmp >>
+                          orphanRuns, mDone, crashed, excAtReturn, timedOut, 
+                          steps, tmp, osteps, mtmp >>
 
 th_check == /\ pc["T"] = "th_check"
             /\ IF patches = <<>>
@@ -343,8 +376,9 @@ th_check == /\ pc["T"] = "th_check"
                   ELSE /\ pc' = [pc EXCEPT !["T"] = "th_pop"]
             /\ UNCHANGED << patches, stdouts, pOut, buf, realOut, raw, exc, 
                             fbs, pending, tState, cur, xcell, released, 
-                            nOutcome, excNext, mDone, crashed, excAtReturn, 
-                            timedOut, sched, steps, tmp, mtmp >>
+                            nOutcome, excNext, orphanRuns, mDone, crashed, 
+                            excAtReturn, timedOut, sched, steps, tmp, osteps, 
+                            mtmp >>
 
 th_pop == /\ pc["T"] = "th_pop"
           /\ IF patches = <<>>
@@ -357,15 +391,16 @@ th_pop == /\ pc["T"] = "th_pop"
                      /\ UNCHANGED crashed
           /\ UNCHANGED << stdouts, pOut, buf, realOut, raw, exc, fbs, pending, 
                           tState, cur, xcell, released, nOutcome, excNext, 
-                          mDone, excAtReturn, timedOut, sched, steps, mtmp >>
+                          orphanRuns, mDone, excAtReturn, timedOut, sched, 
+                          steps, osteps, mtmp >>
 
 th_stop == /\ pc["T"] = "th_stop"
            /\ pOut' = tmp
            /\ pc' = [pc EXCEPT !["T"] = "th_popOut"]
            /\ UNCHANGED << patches, stdouts, buf, realOut, raw, exc, fbs, 
                            pending, tState, cur, xcell, released, nOutcome, 
-                           excNext, mDone, crashed, excAtReturn, timedOut, 
-                           sched, steps, tmp, mtmp >>
+                           excNext, orphanRuns, mDone, crashed, excAtReturn, 
+                           timedOut, sched, steps, tmp, osteps, mtmp >>
 
 th_popOut == /\ pc["T"] = "th_popOut"
              /\ IF stdouts = <<>>
@@ -378,24 +413,24 @@ th_popOut == /\ pc["T"] = "th_popOut"
                         /\ UNCHANGED crashed
              /\ UNCHANGED << patches, pOut, buf, realOut, exc, fbs, pending, 
                              tState, cur, xcell, released, nOutcome, excNext, 
-                             mDone, excAtReturn, timedOut, sched, steps, tmp, 
-                             mtmp >>
+                             orphanRuns, mDone, excAtReturn, timedOut, sched, 
+                             steps, tmp, osteps, mtmp >>
 
 th_excW == /\ pc["T"] = "th_excW"
            /\ exc' = "sysexit"
            /\ pc' = [pc EXCEPT !["T"] = "th_build"]
            /\ UNCHANGED << patches, stdouts, pOut, buf, realOut, raw, fbs, 
                            pending, tState, cur, xcell, released, nOutcome, 
-                           excNext, mDone, crashed, excAtReturn, timedOut, 
-                           sched, steps, tmp, mtmp >>
+                           excNext, orphanRuns, mDone, crashed, excAtReturn, 
+                           timedOut, sched, steps, tmp, osteps, mtmp >>
 
 th_build == /\ pc["T"] = "th_build"
             /\ fbs' = Append(fbs, exc)
             /\ pc' = [pc EXCEPT !["T"] = "t_dead"]
             /\ UNCHANGED << patches, stdouts, pOut, buf, realOut, raw, exc, 
                             pending, tState, cur, xcell, released, nOutcome, 
-                            excNext, mDone, crashed, excAtReturn, timedOut, 
-                            sched, steps, tmp, mtmp >>
+                            excNext, orphanRuns, mDone, crashed, excAtReturn, 
+                            timedOut, sched, steps, tmp, osteps, mtmp >>
 
 t_done == /\ pc["T"] = "t_done"
           /\ IF Design = "grader_bookkeeping"
@@ -403,8 +438,8 @@ t_done == /\ pc["T"] = "t_done"
                 ELSE /\ pc' = [pc EXCEPT !["T"] = "te_check"]
           /\ UNCHANGED << patches, stdouts, pOut, buf, realOut, raw, exc, fbs, 
                           pending, tState, cur, xcell, released, nOutcome, 
-                          excNext, mDone, crashed, excAtReturn, timedOut, 
-                          sched, steps, tmp, mtmp >>
+                          excNext, orphanRuns, mDone, crashed, excAtReturn, 
+                          timedOut, sched, steps, tmp, osteps, mtmp >>
 
 te_check == /\ pc["T"] = "te_check"
             /\ IF pending
@@ -414,8 +449,9 @@ te_check == /\ pc["T"] = "te_check"
                              ELSE /\ pc' = [pc EXCEPT !["T"] = "te_pop"]
             /\ UNCHANGED << patches, stdouts, pOut, buf, realOut, raw, exc, 
                             fbs, pending, tState, cur, xcell, released, 
-                            nOutcome, excNext, mDone, crashed, excAtReturn, 
-                            timedOut, sched, steps, tmp, mtmp >>
+                            nOutcome, excNext, orphanRuns, mDone, crashed, 
+                            excAtReturn, timedOut, sched, steps, tmp, osteps, 
+                            mtmp >>
 
 te_pop == /\ pc["T"] = "te_pop"
           /\ IF pending
@@ -431,7 +467,8 @@ te_pop == /\ pc["T"] = "te_pop"
                                 /\ UNCHANGED crashed
           /\ UNCHANGED << stdouts, pOut, buf, realOut, raw, exc, fbs, pending, 
                           tState, cur, xcell, released, nOutcome, excNext, 
-                          mDone, excAtReturn, timedOut, sched, steps, mtmp >>
+                          orphanRuns, mDone, excAtReturn, timedOut, sched, 
+                          steps, osteps, mtmp >>
 
 te_stop == /\ pc["T"] = "te_stop"
            /\ IF pending
@@ -441,8 +478,8 @@ te_stop == /\ pc["T"] = "te_stop"
                       /\ pc' = [pc EXCEPT !["T"] = "te_popOut"]
            /\ UNCHANGED << patches, stdouts, buf, realOut, raw, exc, fbs, 
                            pending, tState, cur, xcell, released, nOutcome, 
-                           excNext, mDone, crashed, excAtReturn, timedOut, 
-                           sched, steps, tmp, mtmp >>
+                           excNext, orphanRuns, mDone, crashed, excAtReturn, 
+                           timedOut, sched, steps, tmp, osteps, mtmp >>
 
 te_popOut == /\ pc["T"] = "te_popOut"
              /\ IF pending
@@ -458,21 +495,47 @@ te_popOut == /\ pc["T"] = "te_popOut"
                                    /\ UNCHANGED crashed
              /\ UNCHANGED << patches, pOut, buf, realOut, exc, fbs, pending, 
                              tState, cur, xcell, released, nOutcome, excNext, 
-                             mDone, excAtReturn, timedOut, sched, steps, tmp, 
-                             mtmp >>
+                             orphanRuns, mDone, excAtReturn, timedOut, sched, 
+                             steps, tmp, osteps, mtmp >>
 
 t_dead == /\ pc["T"] = "t_dead"
           /\ tState' = "dead"
           /\ pc' = [pc EXCEPT !["T"] = "Done"]
           /\ UNCHANGED << patches, stdouts, pOut, buf, realOut, raw, exc, fbs, 
                           pending, cur, xcell, released, nOutcome, excNext, 
-                          mDone, crashed, excAtReturn, timedOut, sched, steps, 
-                          tmp, mtmp >>
+                          orphanRuns, mDone, crashed, excAtReturn, timedOut, 
+                          sched, steps, tmp, osteps, mtmp >>
 
 T == t_wait \/ t_begin \/ t_mock1 \/ t_mock2 \/ t_loop \/ t_blocked \/ t_b2
         \/ t_immortal \/ t_i2 \/ t_exit \/ th_check \/ th_pop \/ th_stop
         \/ th_popOut \/ th_excW \/ th_build \/ t_done \/ te_check \/ te_pop
         \/ te_stop \/ te_popOut \/ t_dead
+
+o_wait == /\ pc["O"] = "o_wait"
+          /\ orphanRuns
+          /\ pc' = [pc EXCEPT !["O"] = "o_loop"]
+          /\ UNCHANGED << patches, stdouts, pOut, buf, realOut, raw, exc, fbs, 
+                          pending, tState, cur, xcell, released, nOutcome, 
+                          excNext, orphanRuns, mDone, crashed, excAtReturn, 
+                          timedOut, sched, steps, tmp, osteps, mtmp >>
+
+o_loop == /\ pc["O"] = "o_loop"
+          /\ IF osteps < MaxSteps + 2
+                THEN /\ IF pOut = "real"
+                           THEN /\ realOut' = Append(realOut, "s")
+                                /\ buf' = buf
+                           ELSE /\ buf' = [buf EXCEPT ![pOut] = Append(buf[pOut], "s")]
+                                /\ UNCHANGED realOut
+                     /\ osteps' = osteps + 1
+                     /\ pc' = [pc EXCEPT !["O"] = "o_loop"]
+                ELSE /\ pc' = [pc EXCEPT !["O"] = "Done"]
+                     /\ UNCHANGED << buf, realOut, osteps >>
+          /\ UNCHANGED << patches, stdouts, pOut, raw, exc, fbs, pending, 
+                          tState, cur, xcell, released, nOutcome, excNext, 
+                          orphanRuns, mDone, crashed, excAtReturn, timedOut, 
+                          sched, steps, tmp, mtmp >>
+
+O == o_wait \/ o_loop
 
 m_begin == /\ pc["M"] = "m_begin"
            /\ IF Design = "grader_bookkeeping"
@@ -482,16 +545,16 @@ m_begin == /\ pc["M"] = "m_begin"
                       /\ exc' = exc
            /\ UNCHANGED << patches, stdouts, pOut, buf, realOut, raw, fbs, 
                            pending, tState, cur, xcell, released, nOutcome, 
-                           excNext, mDone, crashed, excAtReturn, timedOut, 
-                           sched, steps, tmp, mtmp >>
+                           excNext, orphanRuns, mDone, crashed, excAtReturn, 
+                           timedOut, sched, steps, tmp, osteps, mtmp >>
 
 m_mock1 == /\ pc["M"] = "m_mock1"
            /\ stdouts' = <<"b1">> \o stdouts
            /\ pc' = [pc EXCEPT !["M"] = "m_mock2"]
            /\ UNCHANGED << patches, pOut, buf, realOut, raw, exc, fbs, pending, 
                            tState, cur, xcell, released, nOutcome, excNext, 
-                           mDone, crashed, excAtReturn, timedOut, sched, steps, 
-                           tmp, mtmp >>
+                           orphanRuns, mDone, crashed, excAtReturn, timedOut, 
+                           sched, steps, tmp, osteps, mtmp >>
 
 m_mock2 == /\ pc["M"] = "m_mock2"
            /\ patches' = <<pOut>> \o patches
@@ -499,8 +562,9 @@ m_mock2 == /\ pc["M"] = "m_mock2"
            /\ tState' = "running"
            /\ pc' = [pc EXCEPT !["M"] = "m_join"]
            /\ UNCHANGED << stdouts, buf, realOut, raw, exc, fbs, pending, cur, 
-                           xcell, released, nOutcome, excNext, mDone, crashed, 
-                           excAtReturn, timedOut, sched, steps, tmp, mtmp >>
+                           xcell, released, nOutcome, excNext, orphanRuns, 
+                           mDone, crashed, excAtReturn, timedOut, sched, steps, 
+                           tmp, osteps, mtmp >>
 
 m_join == /\ pc["M"] = "m_join"
           /\ tState # "new"
@@ -512,8 +576,8 @@ m_join == /\ pc["M"] = "m_join"
                 /\ pc' = [pc EXCEPT !["M"] = "m_term"]
           /\ UNCHANGED << patches, stdouts, pOut, buf, realOut, raw, exc, fbs, 
                           pending, tState, cur, xcell, released, nOutcome, 
-                          excNext, mDone, crashed, excAtReturn, sched, steps, 
-                          tmp, mtmp >>
+                          excNext, orphanRuns, mDone, crashed, excAtReturn, 
+                          sched, steps, tmp, osteps, mtmp >>
 
 m_term == /\ pc["M"] = "m_term"
           /\ IF tState # "dead"
@@ -524,16 +588,16 @@ m_term == /\ pc["M"] = "m_term"
           /\ pc' = [pc EXCEPT !["M"] = "mh_entry"]
           /\ UNCHANGED << patches, stdouts, pOut, buf, realOut, raw, exc, fbs, 
                           tState, cur, xcell, released, nOutcome, excNext, 
-                          mDone, crashed, excAtReturn, timedOut, steps, tmp, 
-                          mtmp >>
+                          orphanRuns, mDone, crashed, excAtReturn, timedOut, 
+                          steps, tmp, osteps, mtmp >>
 
 mh_entry == /\ pc["M"] = "mh_entry"
             /\ sched' = Append(sched, "M:handler")
             /\ pc' = [pc EXCEPT !["M"] = "mh_check"]
             /\ UNCHANGED << patches, stdouts, pOut, buf, realOut, raw, exc, 
                             fbs, pending, tState, cur, xcell, released, 
-                            nOutcome, excNext, mDone, crashed, excAtReturn, 
-                            timedOut, steps, tmp, mtmp >>
+                            nOutcome, excNext, orphanRuns, mDone, crashed, 
+                            excAtReturn, timedOut, steps, tmp, osteps, mtmp >>
 
 mh_check == /\ pc["M"] = "mh_check"
             /\ IF patches = <<>>
@@ -541,8 +605,9 @@ mh_check == /\ pc["M"] = "mh_check"
                   ELSE /\ pc' = [pc EXCEPT !["M"] = "mh_pop"]
             /\ UNCHANGED << patches, stdouts, pOut, buf, realOut, raw, exc, 
                             fbs, pending, tState, cur, xcell, released, 
-                            nOutcome, excNext, mDone, crashed, excAtReturn, 
-                            timedOut, sched, steps, tmp, mtmp >>
+                            nOutcome, excNext, orphanRuns, mDone, crashed, 
+                            excAtReturn, timedOut, sched, steps, tmp, osteps, 
+                            mtmp >>
 
 mh_pop == /\ pc["M"] = "mh_pop"
           /\ IF patches = <<>>
@@ -555,7 +620,8 @@ mh_pop == /\ pc["M"] = "mh_pop"
                      /\ UNCHANGED crashed
           /\ UNCHANGED << stdouts, pOut, buf, realOut, raw, exc, fbs, pending, 
                           tState, cur, xcell, released, nOutcome, excNext, 
-                          mDone, excAtReturn, timedOut, sched, steps, tmp >>
+                          orphanRuns, mDone, excAtReturn, timedOut, sched, 
+                          steps, tmp, osteps >>
 
 mh_stop == /\ pc["M"] = "mh_stop"
            /\ pOut' = mtmp
@@ -563,8 +629,8 @@ mh_stop == /\ pc["M"] = "mh_stop"
            /\ pc' = [pc EXCEPT !["M"] = "mh_popOut"]
            /\ UNCHANGED << patches, stdouts, buf, realOut, raw, exc, fbs, 
                            pending, tState, cur, xcell, released, nOutcome, 
-                           excNext, mDone, crashed, excAtReturn, timedOut, 
-                           steps, tmp, mtmp >>
+                           excNext, orphanRuns, mDone, crashed, excAtReturn, 
+                           timedOut, steps, tmp, osteps, mtmp >>
 
 mh_popOut == /\ pc["M"] = "mh_popOut"
              /\ IF Design = "grader_bookkeeping"
@@ -580,24 +646,24 @@ mh_popOut == /\ pc["M"] = "mh_popOut"
                         /\ UNCHANGED << stdouts, raw, crashed >>
              /\ UNCHANGED << patches, pOut, buf, realOut, exc, fbs, pending, 
                              tState, cur, xcell, released, nOutcome, excNext, 
-                             mDone, excAtReturn, timedOut, sched, steps, tmp, 
-                             mtmp >>
+                             orphanRuns, mDone, excAtReturn, timedOut, sched, 
+                             steps, tmp, osteps, mtmp >>
 
 mh_excW == /\ pc["M"] = "mh_excW"
            /\ exc' = "timeout"
            /\ pc' = [pc EXCEPT !["M"] = "mh_build"]
            /\ UNCHANGED << patches, stdouts, pOut, buf, realOut, raw, fbs, 
                            pending, tState, cur, xcell, released, nOutcome, 
-                           excNext, mDone, crashed, excAtReturn, timedOut, 
-                           sched, steps, tmp, mtmp >>
+                           excNext, orphanRuns, mDone, crashed, excAtReturn, 
+                           timedOut, sched, steps, tmp, osteps, mtmp >>
 
 mh_build == /\ pc["M"] = "mh_build"
             /\ fbs' = Append(fbs, exc)
             /\ pc' = [pc EXCEPT !["M"] = "m_ret"]
             /\ UNCHANGED << patches, stdouts, pOut, buf, realOut, raw, exc, 
                             pending, tState, cur, xcell, released, nOutcome, 
-                            excNext, mDone, crashed, excAtReturn, timedOut, 
-                            sched, steps, tmp, mtmp >>
+                            excNext, orphanRuns, mDone, crashed, excAtReturn, 
+                            timedOut, sched, steps, tmp, osteps, mtmp >>
 
 m_finished == /\ pc["M"] = "m_finished"
               /\ IF Design = "grader_bookkeeping"
@@ -605,8 +671,9 @@ m_finished == /\ pc["M"] = "m_finished"
                     ELSE /\ pc' = [pc EXCEPT !["M"] = "m_ret"]
               /\ UNCHANGED << patches, stdouts, pOut, buf, realOut, raw, exc, 
                               fbs, pending, tState, cur, xcell, released, 
-                              nOutcome, excNext, mDone, crashed, excAtReturn, 
-                              timedOut, sched, steps, tmp, mtmp >>
+                              nOutcome, excNext, orphanRuns, mDone, crashed, 
+                              excAtReturn, timedOut, sched, steps, tmp, osteps, 
+                              mtmp >>
 
 mf_pop == /\ pc["M"] = "mf_pop"
           /\ mtmp' = Head(patches)
@@ -614,16 +681,16 @@ mf_pop == /\ pc["M"] = "mf_pop"
           /\ pc' = [pc EXCEPT !["M"] = "mf_stop"]
           /\ UNCHANGED << stdouts, pOut, buf, realOut, raw, exc, fbs, pending, 
                           tState, cur, xcell, released, nOutcome, excNext, 
-                          mDone, crashed, excAtReturn, timedOut, sched, steps, 
-                          tmp >>
+                          orphanRuns, mDone, crashed, excAtReturn, timedOut, 
+                          sched, steps, tmp, osteps >>
 
 mf_stop == /\ pc["M"] = "mf_stop"
            /\ pOut' = mtmp
            /\ pc' = [pc EXCEPT !["M"] = "mf_popOut"]
            /\ UNCHANGED << patches, stdouts, buf, realOut, raw, exc, fbs, 
                            pending, tState, cur, xcell, released, nOutcome, 
-                           excNext, mDone, crashed, excAtReturn, timedOut, 
-                           sched, steps, tmp, mtmp >>
+                           excNext, orphanRuns, mDone, crashed, excAtReturn, 
+                           timedOut, sched, steps, tmp, osteps, mtmp >>
 
 mf_popOut == /\ pc["M"] = "mf_popOut"
              /\ raw' = Append(raw, <<Head(stdouts), buf[Head(stdouts)]>>)
@@ -631,8 +698,8 @@ mf_popOut == /\ pc["M"] = "mf_popOut"
              /\ pc' = [pc EXCEPT !["M"] = "m_ret"]
              /\ UNCHANGED << patches, pOut, buf, realOut, exc, fbs, pending, 
                              tState, cur, xcell, released, nOutcome, excNext, 
-                             mDone, crashed, excAtReturn, timedOut, sched, 
-                             steps, tmp, mtmp >>
+                             orphanRuns, mDone, crashed, excAtReturn, timedOut, 
+                             sched, steps, tmp, osteps, mtmp >>
 
 m_ret == /\ pc["M"] = "m_ret"
          /\ excAtReturn' = exc
@@ -640,7 +707,8 @@ m_ret == /\ pc["M"] = "m_ret"
          /\ pc' = [pc EXCEPT !["M"] = "n_begin"]
          /\ UNCHANGED << patches, stdouts, pOut, buf, realOut, raw, exc, fbs, 
                          pending, tState, cur, xcell, released, nOutcome, 
-                         excNext, mDone, crashed, timedOut, steps, tmp, mtmp >>
+                         excNext, orphanRuns, mDone, crashed, timedOut, steps, 
+                         tmp, osteps, mtmp >>
 
 n_begin == /\ pc["M"] = "n_begin"
            /\ exc' = "none"
@@ -651,17 +719,17 @@ n_begin == /\ pc["M"] = "n_begin"
                       /\ xcell' = xcell
            /\ pc' = [pc EXCEPT !["M"] = "n_mock1"]
            /\ UNCHANGED << patches, stdouts, pOut, buf, realOut, raw, fbs, 
-                           pending, tState, released, nOutcome, excNext, mDone, 
-                           crashed, excAtReturn, timedOut, sched, steps, tmp, 
-                           mtmp >>
+                           pending, tState, released, nOutcome, excNext, 
+                           orphanRuns, mDone, crashed, excAtReturn, timedOut, 
+                           sched, steps, tmp, osteps, mtmp >>
 
 n_mock1 == /\ pc["M"] = "n_mock1"
            /\ stdouts' = <<"b2">> \o stdouts
            /\ pc' = [pc EXCEPT !["M"] = "n_mock2"]
            /\ UNCHANGED << patches, pOut, buf, realOut, raw, exc, fbs, pending, 
                            tState, cur, xcell, released, nOutcome, excNext, 
-                           mDone, crashed, excAtReturn, timedOut, sched, steps, 
-                           tmp, mtmp >>
+                           orphanRuns, mDone, crashed, excAtReturn, timedOut, 
+                           sched, steps, tmp, osteps, mtmp >>
 
 n_mock2 == /\ pc["M"] = "n_mock2"
            /\ patches' = <<pOut>> \o patches
@@ -669,8 +737,8 @@ n_mock2 == /\ pc["M"] = "n_mock2"
            /\ pc' = [pc EXCEPT !["M"] = "n_print"]
            /\ UNCHANGED << stdouts, buf, realOut, raw, exc, fbs, pending, 
                            tState, cur, xcell, released, nOutcome, excNext, 
-                           mDone, crashed, excAtReturn, timedOut, sched, steps, 
-                           tmp, mtmp >>
+                           orphanRuns, mDone, crashed, excAtReturn, timedOut, 
+                           sched, steps, tmp, osteps, mtmp >>
 
 n_print == /\ pc["M"] = "n_print"
            /\ IF pOut = "real"
@@ -685,8 +753,9 @@ n_print == /\ pc["M"] = "n_print"
                       /\ UNCHANGED released
            /\ pc' = [pc EXCEPT !["M"] = "n_join"]
            /\ UNCHANGED << patches, stdouts, pOut, raw, exc, fbs, pending, 
-                           tState, cur, xcell, nOutcome, excNext, mDone, 
-                           crashed, excAtReturn, timedOut, steps, tmp, mtmp >>
+                           tState, cur, xcell, nOutcome, excNext, orphanRuns, 
+                           mDone, crashed, excAtReturn, timedOut, steps, tmp, 
+                           osteps, mtmp >>
 
 n_join == /\ pc["M"] = "n_join"
           /\ IF NextRun = "threaded" /\ xcell["r2"] # "none"
@@ -696,8 +765,8 @@ n_join == /\ pc["M"] = "n_join"
           /\ pc' = [pc EXCEPT !["M"] = "n_check"]
           /\ UNCHANGED << patches, stdouts, pOut, buf, realOut, raw, exc, fbs, 
                           pending, tState, cur, xcell, released, excNext, 
-                          mDone, crashed, excAtReturn, timedOut, sched, steps, 
-                          tmp, mtmp >>
+                          orphanRuns, mDone, crashed, excAtReturn, timedOut, 
+                          sched, steps, tmp, osteps, mtmp >>
 
 n_check == /\ pc["M"] = "n_check"
            /\ IF patches = <<>>
@@ -705,8 +774,8 @@ n_check == /\ pc["M"] = "n_check"
                  ELSE /\ pc' = [pc EXCEPT !["M"] = "n_pop"]
            /\ UNCHANGED << patches, stdouts, pOut, buf, realOut, raw, exc, fbs, 
                            pending, tState, cur, xcell, released, nOutcome, 
-                           excNext, mDone, crashed, excAtReturn, timedOut, 
-                           sched, steps, tmp, mtmp >>
+                           excNext, orphanRuns, mDone, crashed, excAtReturn, 
+                           timedOut, sched, steps, tmp, osteps, mtmp >>
 
 n_pop == /\ pc["M"] = "n_pop"
          /\ IF patches = <<>>
@@ -719,15 +788,16 @@ n_pop == /\ pc["M"] = "n_pop"
                     /\ UNCHANGED crashed
          /\ UNCHANGED << stdouts, pOut, buf, realOut, raw, exc, fbs, pending, 
                          tState, cur, xcell, released, nOutcome, excNext, 
-                         mDone, excAtReturn, timedOut, sched, steps, tmp >>
+                         orphanRuns, mDone, excAtReturn, timedOut, sched, 
+                         steps, tmp, osteps >>
 
 n_stop == /\ pc["M"] = "n_stop"
           /\ pOut' = mtmp
           /\ pc' = [pc EXCEPT !["M"] = "n_popOut"]
           /\ UNCHANGED << patches, stdouts, buf, realOut, raw, exc, fbs, 
                           pending, tState, cur, xcell, released, nOutcome, 
-                          excNext, mDone, crashed, excAtReturn, timedOut, 
-                          sched, steps, tmp, mtmp >>
+                          excNext, orphanRuns, mDone, crashed, excAtReturn, 
+                          timedOut, sched, steps, tmp, osteps, mtmp >>
 
 n_popOut == /\ pc["M"] = "n_popOut"
             /\ IF stdouts = <<>>
@@ -739,8 +809,8 @@ n_popOut == /\ pc["M"] = "n_popOut"
             /\ pc' = [pc EXCEPT !["M"] = "n_record"]
             /\ UNCHANGED << patches, pOut, buf, realOut, exc, fbs, pending, 
                             tState, cur, xcell, released, nOutcome, excNext, 
-                            mDone, excAtReturn, timedOut, sched, steps, tmp, 
-                            mtmp >>
+                            orphanRuns, mDone, excAtReturn, timedOut, sched, 
+                            steps, tmp, osteps, mtmp >>
 
 n_record == /\ pc["M"] = "n_record"
             /\ IF nOutcome # "none"
@@ -751,8 +821,8 @@ n_record == /\ pc["M"] = "n_record"
             /\ pc' = [pc EXCEPT !["M"] = "n_done"]
             /\ UNCHANGED << patches, stdouts, pOut, buf, realOut, raw, pending, 
                             tState, cur, xcell, released, nOutcome, excNext, 
-                            mDone, crashed, excAtReturn, timedOut, sched, 
-                            steps, tmp, mtmp >>
+                            orphanRuns, mDone, crashed, excAtReturn, timedOut, 
+                            sched, steps, tmp, osteps, mtmp >>
 
 n_done == /\ pc["M"] = "n_done"
           /\ excNext' = exc
@@ -760,8 +830,8 @@ n_done == /\ pc["M"] = "n_done"
           /\ pc' = [pc EXCEPT !["M"] = "Done"]
           /\ UNCHANGED << patches, stdouts, pOut, buf, realOut, raw, exc, fbs, 
                           pending, tState, cur, xcell, released, nOutcome, 
-                          crashed, excAtReturn, timedOut, sched, steps, tmp, 
-                          mtmp >>
+                          orphanRuns, crashed, excAtReturn, timedOut, sched, 
+                          steps, tmp, osteps, mtmp >>
 
 M == m_begin \/ m_mock1 \/ m_mock2 \/ m_join \/ m_term \/ mh_entry
         \/ mh_check \/ mh_pop \/ mh_stop \/ mh_popOut \/ mh_excW
@@ -773,7 +843,7 @@ M == m_begin \/ m_mock1 \/ m_mock2 \/ m_join \/ m_term \/ mh_entry
 Terminating == /\ \A self \in ProcSet: pc[self] = "Done"
                /\ UNCHANGED vars
 
-Next == T \/ M
+Next == T \/ O \/ M
            \/ Terminating
 
 Spec == Init /\ [][Next]_vars
